@@ -1,6 +1,7 @@
 package main
 
 import (
+	"regexp"
 	"fmt"
 	"go/ast"
 	"go/token"
@@ -357,6 +358,7 @@ func genOverlay(p *packages.Package, con *Contracts, L *Loaded) (string, []strin
 	w("func __old[T any](x T) T { return x }\n")
 	w("func __trigger(x ...any) bool { return true }\n")
 	w("func __has[K comparable, V any](m map[K]V, k K) bool { return true }\n")
+	w("func __get[K comparable, V any](m map[K]V, k K) V { var z V; return z }\n")
 	w("func __same[T any](a, b T) bool { return true }\n")
 	w("func __fresh(x any) bool { return true }\n")
 	w("func __disjoint[T any](a, b []T) bool { return true }\n")
@@ -448,7 +450,34 @@ func genOverlay(p *packages.Package, con *Contracts, L *Loaded) (string, []strin
 				seenA := map[string]bool{}
 				var avars []loopVar
 				if fd != nil && fd.Body != nil {
-					avars = varsAt(p, fd, fd.Body.Rbrace, nil)
+					at := fd.Body.Rbrace
+					// the variables in scope at the first call of the callee (nested scopes included)
+					if cl.Callee != "return" {
+						found := false
+						ast.Inspect(fd.Body, func(n ast.Node) bool {
+							if found {
+								return false
+							}
+							ce, ok := n.(*ast.CallExpr)
+							if !ok {
+								return true
+							}
+							nm := ""
+							switch f := ce.Fun.(type) {
+							case *ast.Ident:
+								nm = f.Name
+							case *ast.SelectorExpr:
+								nm = f.Sel.Name
+							}
+							if nm == cl.Callee {
+								at = ce.Pos()
+								found = true
+								return false
+							}
+							return true
+						})
+					}
+					avars = varsAt(p, fd, at, nil)
 				}
 				for _, v := range avars {
 					if seenA[v.Name] || v.Name == "_" {
@@ -553,6 +582,14 @@ func genOverlay(p *packages.Package, con *Contracts, L *Loaded) (string, []strin
 					ps = append(ps, v.Name+" "+strings.Replace(g.typ(v.Type), "...", "[]", 1))
 				}
 				ps = append(ps, "__idx int") // number of elements a range loop has finished
+				// parameters are mutable: inside old(...) a parameter name means its entry value
+				var pnames []string
+				for _, pr := range params {
+					nm := strings.Fields(pr)[0]
+					pnames = append(pnames, nm)
+					ps = append(ps, "__entry_"+pr)
+				}
+				e = entryInOld(e, pnames)
 				rt := "bool"
 				if cl.Kind == "decreases" {
 					rt = "uint64"
@@ -577,6 +614,44 @@ func genOverlay(p *packages.Package, con *Contracts, L *Loaded) (string, []strin
 	}
 	hdr.WriteString("\n")
 	return hdr.String() + body.String(), stale
+}
+
+// entryInOld rewrites, inside every __old(...) of a loop clause, the bare names of the function's
+// parameters to their entry-value parameters (__entry_<name>).
+func entryInOld(e string, pnames []string) string {
+	var sb strings.Builder
+	i := 0
+	for i < len(e) {
+		j := strings.Index(e[i:], "__old(")
+		if j < 0 {
+			sb.WriteString(e[i:])
+			break
+		}
+		j += i
+		sb.WriteString(e[i : j+6])
+		depth, k := 1, j+6
+		for k < len(e) && depth > 0 {
+			switch e[k] {
+			case '(':
+				depth++
+			case ')':
+				depth--
+			}
+			k++
+		}
+		inner := e[j+6 : k-1]
+		for _, pn := range pnames {
+			if pn == "_" || pn == "" {
+				continue
+			}
+			re := regexp.MustCompile(`(^|[^A-Za-z0-9_.])` + regexp.QuoteMeta(pn) + `\b`)
+			inner = re.ReplaceAllString(inner, "${1}__entry_"+pn)
+		}
+		sb.WriteString(inner)
+		sb.WriteString(")")
+		i = k
+	}
+	return sb.String()
 }
 
 func lastOpen(s string) int {
